@@ -833,8 +833,9 @@ def blank_variants(ctx, r, text, value, ws_chars):
             if classify_quantity(q) == "invalid":
                 ctx.reject("parse_unitvalue", q, BLANK_Q)
                 ctx.reject("UnitValue", q, BLANK_Q)
-    ctx.sample(BLANK_U, {"must_raise": text[:max(1, len(text) // 2)] + " " + text[max(1, len(text) // 2):],
-                         "derived_from": text, "positions": len(text) - 1})
+    if len(text) > 1:
+        ctx.sample(BLANK_U, {"must_raise": text[:len(text) // 2] + " " + text[len(text) // 2:],
+                             "derived_from": text, "positions_tried": len(text) - 1})
     for pos in range(1, len(value)):
         q = value[:pos] + " " + value[pos:] + " " + text
         if classify_quantity(q) == "invalid":
@@ -858,7 +859,7 @@ def w_blanks(ctx, case):
             ctx.sample(BLANK_Q, {"must_raise": "1 " + a + " s-1"})
     for _ in range(case["n"]):
         fs, seps, text = rand_text(r, n=r.choice([2, 2, 3]))
-        blank_variants(ctx, r, text, r.choice(VALUES), [" ", "\t"] if r.random() < 0.15 else [" "])
+        blank_variants(ctx, r, text, r.choice(VALUES), [" ", "\t", "\n"] if r.random() < 0.15 else [" "])
     return {}
 
 
@@ -954,12 +955,12 @@ def main():
     for i in range(nb):
         cases.append({"w": "rt_values", "seed": sd, "idx": i, "n": 20000 if thorough else 6500})
     for i in range(nb):
-        cases.append({"w": "reject", "seed": sd, "idx": i, "n": 1500 if thorough else 220})
+        cases.append({"w": "reject", "seed": sd, "idx": i, "n": 1000 if thorough else 220})
     if not SKIP_BLANKS:
         for i, ch in enumerate(chunks(SPELL, 26)):
             cases.append({"w": "blanks", "seed": sd, "idx": i, "chunk": ch, "n": 0})
         for i in range(nb):
-            cases.append({"w": "blanks", "seed": sd, "idx": 100 + i, "n": 1500 if thorough else 150})
+            cases.append({"w": "blanks", "seed": sd, "idx": 100 + i, "n": 1000 if thorough else 150})
     else:
         run.note("skipped", "blank families skipped by VERIF_C18_SKIP_BLANKS: the verdict cannot be 'held'")
     for c in cases:
